@@ -89,11 +89,22 @@ func Run(p *gen.Program, o Opts) Outcome {
 		out.Discard = d
 		return out
 	}
-	i, err := Load(p)
-	if err != nil {
-		out.Err = err
-		return out
+	return RunLoaded(nil, p, o, out)
+}
+
+// RunLoaded is Run on an interpreter that already holds the program (nil: load it now); only
+// sound for programs without side effects.
+func RunLoaded(i *sut.I, p *gen.Program, o Opts, out Outcome) Outcome {
+	rr := out.Ref
+	if i == nil {
+		var err error
+		i, err = Load(p)
+		if err != nil {
+			out.Err = err
+			return out
+		}
 	}
+	i.Out.Reset()
 	q, names := p.QueryText()
 	budget := int64(200*rr.Stats.Steps + 20000)
 	out.Real = i.Query(q, names, o.MaxAnswers, budget)
